@@ -128,12 +128,15 @@ def emit():
         raise TranslateError('LightSwitch.release: counter decrement not understood')
     resets = [n for n in ast.walk(acq) if isinstance(n, ast.Assign)
               and [ast.unparse(x) for x in n.targets] == ['self._counter']]
-    if len(resets) != 1:
-        raise TranslateError('LightSwitch.acquire: expected one counter reset')
-    r = const_eval(resets[0].value, {})
-    if not isinstance(r, int) or isinstance(r, bool) or r < 0:
-        raise TranslateError('LightSwitch.acquire: reset value not a natural')
-    lines.append(f'Definition ls_fail_reset : nat := {r}.')
+    if len(resets) > 1:
+        raise TranslateError('LightSwitch.acquire: more than one counter reset')
+    if resets:
+        r = const_eval(resets[0].value, {})
+        if not isinstance(r, int) or isinstance(r, bool) or r < 0:
+            raise TranslateError('LightSwitch.acquire: reset value not a natural')
+        lines.append(f'Definition ls_fail_reset : option nat := Some {r}.')
+    else:
+        lines.append('Definition ls_fail_reset : option nat := None.')
     # downgrade branch of _WriteLock.release
     wr = method(t, '_WriteLock', 'release')
     ifs = [n for n in wr.body if isinstance(n, ast.If) and ast.unparse(n.test) == 'state.read > 0']
